@@ -417,7 +417,6 @@ func (c *Ctx) seqDerived(v ssa.Value, depth int) bool {
 	})
 }
 
-
 // stripLoad returns the address operand if v is a load, else v.
 func stripLoad(v ssa.Value) ssa.Value {
 	if u, ok := v.(*ssa.UnOp); ok && u.Op == token.MUL {
